@@ -170,6 +170,19 @@ def rule_spelling(ck, F, X):
             if "name" not in fields:
                 continue
             n_refs += 1
+            # where a reference is qualified with its module must not depend on where it was read: members are also written into
+            # other modules than the one of the schema they were declared in (inherited members, envelopes), where only a path resolves
+            if "module" in fields:
+                mtxt = og.nf_str(CE.expand(fields["module"])) + " " + " ".join(og.nf_str(CE.expand(c[1])) for c in ctx if c[0] == "alt")
+                positional = [w for w in ("current_target_namespace", "target_namespaces") if w in mtxt]
+                short_ = fn.rsplit("::", 1)[-1]
+                if positional:
+                    ck.violation("R4", "type-ref:module-depends-on-position", site,
+                                 f"{short_}: whether (or how) a type reference is qualified with its module depends on `{positional[0]}`, i.e. on "
+                                 f"which schema was being read: the reference is also written into other modules (inherited members), where the "
+                                 f"unqualified name does not resolve", fn="")
+                else:
+                    ck.ok("R4", "type-ref:module-from-prefix-only", site, f"{short_}: the module qualification of a reference is a function of its prefix only", fn="")
             ch, root = og.sanitiser_chain(CE.expand(fields["name"]))
             short = fn.replace("model::", "")
             if tuple(ch) == def_chain:
